@@ -276,8 +276,10 @@ impl ExactSizeIterator for MoveGen {
     fn len(&self) -> usize {
         let mut result = 0;
         for i in 0..self.moves.len() {
+            // entries that are exhausted (or were emptied by remove_mask / remove_move) can
+            // sit anywhere in the list, so they are skipped rather than ending the count
             if self.moves[i].bitboard & self.iterator_mask == EMPTY {
-                break;
+                continue;
             }
             if self.moves[i].promotion {
                 result += ((self.moves[i].bitboard & self.iterator_mask).popcnt() as usize)
@@ -286,7 +288,8 @@ impl ExactSizeIterator for MoveGen {
                 result += (self.moves[i].bitboard & self.iterator_mask).popcnt() as usize;
             }
         }
-        result
+        // promotions already handed out for the destination currently being iterated
+        result.saturating_sub(self.promotion_index)
     }
 }
 
